@@ -12,8 +12,8 @@ document (a Python rendering of Ser/DocReading.v); the same spec is evaluated in
 Streams:
   documents   fragment classes of harness/sergen.py (as before)
   wrappers    classes rich in AnyOf/OneOf/AllOf/NotField over overlapping alternatives (harness/c06gen.py, world W)
-  lattice     deterministic enumeration: wrapper kind x alternative whose trial fails with a non-TypeError/ValueError
-              x other alternative x order x position x document
+  lattice     deterministic enumeration: wrapper kind x alternative whose trial fails the hard way (short positional
+              document, non-numeric Decimal string, non-string TimeString) x other alternative x order x position x document
   ext         the same over field classes outside the Coq model (DecimalNumber, date/time fields, formatted
               strings): oracle only, no Coq correspondence"""
 import copy
@@ -80,7 +80,7 @@ def canon(v):
     return E.reify(v, S.struct_attrs)
 
 
-MAP_KEEPS_UNDEFINED = [False]   # counterfactual reading used to attribute a failure: keep_undefined=True below a Map
+MAP_KEEPS_UNDEFINED = [False]   # counterfactual reading used to name a failure: keep_undefined=True below a Map
 EXT_AS_ITSELF = [False]      # second reading of a scalar document for an ext field: the string/number as itself
 
 
@@ -341,7 +341,7 @@ def deep_corruptions(rnd, c, doc, ctx, n):
 TOP_LEVEL = [5, "s", [1, 2], None, True, 2.5, [], ""]
 
 
-# ------------------------------------------------------------------ which open finding a spec failure belongs to
+# ------------------------------------------------------------------ the input shape a spec failure is keyed by
 
 def strip_nulls(c, d, ctx):
     """the document without the keys of declared fields that hold null, at the top and in every nested object
@@ -369,9 +369,47 @@ def strip_nulls(c, d, ctx):
     return out, [t for _, _, t in dels]
 
 
+_RETURNED = {}
+
+
+def returned_defects():
+    """Which of the REPAIRED defects of the generic branches the library under test shows again, decided once per run by
+    the defect's signature behaviour on a fixed probe (not by the failing case): a failure is keyed by one of their
+    shapes only if that defect is observably back -- otherwise a document that merely contains such a site (an empty
+    array where a NoneField is an alternative, ...) would hide which OPEN finding the failure belongs to."""
+    if not _RETURNED:
+        from typedpy import deserialize_single_field, Tuple, Integer, NoneField, TimeString
+
+        def accepted(f, doc):
+            try:
+                deserialize_single_field(f, doc)
+                return True
+            except Exception:  # noqa
+                return False
+
+        def raises(f, doc, name):
+            try:
+                deserialize_single_field(f, doc)
+            except Exception as ex:  # noqa
+                return type(ex).__name__ == name
+            return False
+        _RETURNED.update({
+            "nonefield-container": accepted(NoneField(), []) or accepted(NoneField(), {}),
+            "typedfield-container": accepted(TimeString(), ["07:15:45"]) or accepted(TimeString(), []),
+            "tuple1-positional": accepted(Tuple[Integer], [1, "x"]) or raises(Tuple[Integer], [], "IndexError"),
+        })
+    return _RETURNED
+
+
 def attribute(case, ctx, v):
     """input-shape part of the key of an agreement failure (over-accepts / over-rejects / different-instance)
-    when the failing document has the shape of an OPEN finding; None otherwise"""
+    when the failing document has one of the shapes below; None otherwise.  The shapes of F17b, of the wrapper
+    that takes a non-validating alternative and of AllOf over different JSON forms are those of OPEN findings
+    (known_findings.json lists their keys).  The others are the shapes of REPAIRED defects (keep_undefined not
+    passed below a Map; [] / {} read as None by a NoneField; a TypedField over str built from a JSON container; a
+    one-item Tuple read positionally): their keys are listed nowhere, so a failure of that shape is a VIOLATION --
+    the key only says which defect has come back, and the last three are used only when that defect is observably
+    back (returned_defects)."""
     c, doc = case["c"], case["doc"]
     # F17b: an explicit null for a declared field is treated as an absent key.  Attributed only if the same
     # document without those keys satisfies the property and the implementation treats both alike.
@@ -382,7 +420,7 @@ def attribute(case, ctx, v):
         if verdict(r2, s2) is None and r2[0] == case["real"][0]:
             return "null:" + kinds[0]
     if not case["ku"]:
-        # deserialize_map does not pass keep_undefined on: below a Map the default (True) applies
+        # (repaired) deserialize_map did not pass keep_undefined on: below a Map the default (True) applied
         MAP_KEEPS_UNDEFINED[0] = True
         try:
             if verdict(case["real"], run_spec(c, doc, ctx, case["ku"], case["ii"], case["compact"])) is None:
@@ -391,18 +429,19 @@ def attribute(case, ctx, v):
             MAP_KEEPS_UNDEFINED[0] = False
     top = {"t": "ref", "cls": c["name"]}
     all_sites = list(G6.sites(top, doc, ctx))
+    back = returned_defects()
     for _, g, x in all_sites:
-        # F26: the generic TypedField branch builds NoneType() from [] / {} where a NoneField is expected
-        if g["t"] == "none" and (x == [] or x == {}) and type(x) in (list, dict):
+        # (repaired, F26) the generic TypedField branch built NoneType() from [] / {} where a NoneField is expected
+        if back["nonefield-container"] and g["t"] == "none" and (x == [] or x == {}) and type(x) in (list, dict):
             return "nonefield-accepts-empty-container"
         # same branch, TypedField over str: str(*list) / str(**dict)
-        if g["t"] == "ext" and g["k"] == "TimeString" and type(x) in (list, dict):
+        if back["typedfield-container"] and g["t"] == "ext" and g["k"] == "TimeString" and type(x) in (list, dict):
             return "typedfield-built-from-json-container"
     for _, g, x in all_sites:
-        # F9 / F20 behind a multi-field wrapper: a homogeneous Tuple[T] deserializes element 0 only -- the
-        # empty array raises IndexError (caught by the wrapper: "does not match"), a longer one keeps its
-        # tail as it is
-        if g["t"] == "tuple" and len(g["items"]) == 1 and type(x) is list:
+        # (repaired, F9 / F20) behind a multi-field wrapper: a homogeneous Tuple[T] deserialized element 0 only -- the
+        # empty array raised IndexError (caught by the wrapper: "does not match"), a longer one kept its tail as
+        # it was
+        if back["tuple1-positional"] and g["t"] == "tuple" and len(g["items"]) == 1 and type(x) is list:
             if not x:
                 return "tuple-homogeneous:empty-under-wrapper"
             if len(x) >= 2:
@@ -555,11 +594,12 @@ def judge(rep, stream, ctx, cases, model_world=True):
     for case in cases:
         c = case["c"]
         if model_world:
-            # is the case inside the hypothesis of theorem C06_error_class (env_posfree of the classes it reaches)?
+            # theorem C06_error_class has no hypothesis on the declarations beyond well-formedness (env_wf); how many
+            # cases reach a positional container outside every wrapper (excluded by the theorem until F9 was repaired)
             if c["name"] not in frag:
                 frag[c["name"]] = all(G6.posfree(fd["field"]) for n in class_closure(ctx, [c["name"]])
                                       for fd in ctx.ast(n)["fields"])
-            rep.stat(stream, "C06_error_class-hypotheses:" + ("hold" if frag[c["name"]] else "positional-outside-wrapper"))
+            rep.stat(stream, "C06_error_class-hypotheses:hold" + ("" if frag[c["name"]] else "(positional-outside-wrapper)"))
             # ... and inside those of C06_agree_scalar (scalar class; object document, string keys, no null member)?
             sc = all(fd["field"]["t"] in ("num", "str", "bool", "enumlit", "any") for fd in ctx.all_fields(c["name"]))
             d = case["doc"]
@@ -581,7 +621,9 @@ def judge(rep, stream, ctx, cases, model_world=True):
         rep.stat(stream, "label:" + case["label"])
         rep.stat(stream, "outcome:" + (case["real"][0] if case["real"][0] == "ok" else case["real"][1]))
         rep.stat(stream, "flags:ku=%s,ii=%s" % (case["ku"], case["ii"]))
-        # how often a document makes the TRIAL of a wrapper alternative fail with a non-TypeError/ValueError
+        # how often a document puts a wrapper alternative on trial with an input on which it fails the hard way: a
+        # positional document that is too short, a non-numeric string for a DecimalNumber, a non-string for a
+        # TimeString (ValueError/TypeError now; IndexError / InvalidOperation / NotImplementedError before the repairs)
         outside = G6.doc_escapes(c, case["doc"], ctx)
         inside = G6.doc_escapes(c, case["doc"], ctx, through_wrappers=True) - outside
         case["hard_trial"] = bool(inside)
@@ -596,7 +638,8 @@ def judge(rep, stream, ctx, cases, model_world=True):
         attr = None
         if v.startswith("non-te-ve:"):
             if v.split(":", 1)[1] in outside:
-                # an exception an OPEN finding lets escape, at a call site outside every multi-field wrapper
+                # an exception one of the REPAIRED defects let escape, at a call site outside every multi-field
+                # wrapper (the key names the defect that has come back; it is listed nowhere: a VIOLATION)
                 shape = G6.ESCAPE_SHAPE[v.split(":", 1)[1]]
             attr = True
         else:
@@ -697,8 +740,8 @@ def run(rep, tier):
                               ("ext", xcases, 10 if quick else 40), ("ext-lattice", lxcases, 100)):
         n = sum(1 for k in cs if k["hard_trial"])
         rep.obligation("generator:hard-trial-inside-wrapper(%s)" % stream, n >= floor,
-                       "%d documents make the trial of a wrapper alternative fail with a non-TypeError/ValueError "
-                       "(floor %d)" % (n, floor))
+                       "%d documents put a wrapper alternative on trial with a too-short positional document / a non-numeric "
+                       "Decimal string / a non-string TimeString (floor %d)" % (n, floor))
         if n < floor:
             rep.broken("generator:hard-trial-inside-wrapper(%s)" % stream,
                        "only %d documents exercise a failing trial inside a multi-field wrapper (floor %d): inconclusive" % (n, floor))
